@@ -127,7 +127,8 @@ EFramesS ==   \* hole E, result S
      \* further presence combinations of the optional parts of a for statement around the condition
      Frame("S.For", A0, <<<<S0>>, <<>>, <<>>, <<B0>>>>, 2, 1, 99, "E", "S"),
      Frame("S.For", A0, <<<<>>, <<>>, <<S0>>, <<B0>>>>, 2, 1, 99, "E", "S"),
-     Frame("S.For", A0, <<<<>>, <<>>, <<>>, <<>>>>, 2, 1, 99, "E", "S")}
+     Frame("S.For", A0, <<<<>>, <<>>, <<>>, <<>>>>, 2, 1, 99, "E", "S"),
+     Frame("S.For", A0, <<<<S0>>, <<>>, <<S0>>, <<>>>>, 2, 1, 99, "E", "S")}
     \cup ListFrames("S.Revert", [error |-> ""], <<>>, 1, <<>>, a1, a2, 99, "E", "S")
     \cup ListFrames("S.Revert", [error |-> "Failure"], <<>>, 1, <<>>, a1, a2, 99, "E", "S")
     \cup ListFrames("S.RevertNamedArgs", [error |-> "Failure", names |-> <<"n1", "n2", "n3">>], <<>>, 1, <<>>, a1, a2, 99, "E", "S")
@@ -163,6 +164,10 @@ SFrames ==
           Frame("S.For", A0, <<<<>>, <<>>, <<>>, <<B0>>>>, 1, 1, 99, "Simple", "S"),
           Frame("S.For", A0, <<<<>>, <<>>, <<>>, <<B0>>>>, 3, 1, 99, "Simple", "S"),
           Frame("S.For", A0, <<<<S0>>, <<>>, <<>>, <<>>>>, 4, 1, 99, "S", "S"),
+          \* a loop without a body (`for (init; cond; next);`): its three parts are there all the same
+          Frame("S.For", A0, <<<<>>, <<cnd>>, <<>>, <<>>>>, 1, 1, 99, "Simple", "S"),
+          Frame("S.For", A0, <<<<>>, <<cnd>>, <<>>, <<>>>>, 3, 1, 99, "Simple", "S"),
+          Frame("S.For", A0, <<<<S0>>, <<cnd>>, <<>>, <<>>>>, 3, 1, 99, "Simple", "S"),
           Frame("E.FunctionCallBlock", A0, <<<<Var("fn")>>, <<>>>>, 2, 1, 99, "B", "E"),
           Frame("E.FunctionCallBlock", A0, <<<<Var("fn")>>, <<>>>>, 2, 1, 99, "Args", "E"),
           Frame("S.Try", [returns |-> <<[present |-> TRUE, storage |-> "", name |-> "r1"]>>, catches |-> <<[kind |-> "simple", id |-> "", param |-> NoParam]>>],
